@@ -127,6 +127,28 @@ def _unpicklable(x):
     return lambda: x
 
 
+_SIDE = []
+_FLAG = {'v': 0}
+
+
+def _side_effect(x):
+    _SIDE.append(x)
+    return (x, _FLAG['v'])
+
+
+def _isolation_script(Pool):
+    """Process-boundary semantics: a worker's writes to module state are invisible to the
+    parent; the parent's writes after pool creation are invisible to the workers."""
+    del _SIDE[:]
+    _FLAG['v'] = 1
+    with Pool(2) as pool:
+        _FLAG['v'] = 2                       # after the fork: workers still see 1
+        seen = sorted(pool.map(_side_effect, range(4)))
+    out = (list(_SIDE), seen)
+    _FLAG['v'] = 0
+    return out
+
+
 def _pool_script(Pool):
     """The same script against any Pool implementation -> normalised observations."""
     obs = {}
@@ -193,6 +215,42 @@ def _pool_script(Pool):
     return obs
 
 
+def _exec_script(mod):
+    """concurrent.futures API script -> normalised observations (mod = concurrent.futures)."""
+    obs = {}
+    with mod.ProcessPoolExecutor(max_workers=3) as ex:
+        obs['map'] = list(ex.map(_sq, range(8)))
+        obs['map_chunks'] = list(ex.map(_sq, range(8), chunksize=3))
+        futs = [ex.submit(_sq, i) for i in range(6)]
+        obs['results_in_submission_order'] = [f.result() for f in futs]
+        futs = [ex.submit(_sq, i) for i in range(6)]
+        obs['as_completed_multiset'] = sorted(f.result() for f in mod.as_completed(futs))
+        futs = [ex.submit(_sq, i) for i in range(5)]
+        done, pending = mod.wait(futs)
+        obs['wait_all'] = (len(done), len(pending), sorted(f.result() for f in done))
+        f = ex.submit(_boom, 3)
+        obs['exception'] = (type(f.exception()).__name__, f.exception().args)
+        try:
+            list(ex.map(_boom, range(6)))
+            obs['map_exception'] = 'none'
+        except KeyError as e:
+            obs['map_exception'] = e.args
+        acc = []
+        f = ex.submit(_sq, 5)
+        f.add_done_callback(lambda fu: acc.append(fu.result()))
+        f.result()
+        mod.wait([f])
+        obs['done_callback'] = acc
+    try:
+        ex.submit(_sq, 1)
+        obs['submit_after_shutdown'] = 'none'
+    except RuntimeError:
+        obs['submit_after_shutdown'] = 'RuntimeError'
+    with mod.ThreadPoolExecutor(max_workers=2) as ex:
+        obs['thread_map'] = list(ex.map(_sq, range(5)))
+    return obs
+
+
 def pool(n_seeds='40'):
     """Every public Pool method on toy functions: SimPool (all modes, several seeds) must give
     the observations the real Pool gives (values for ordered APIs, multisets for unordered,
@@ -201,6 +259,9 @@ def pool(n_seeds='40'):
     from .rng import Tape
     from .simpool import Sim, Installed, MODES
     real = _pool_script(multiprocessing.get_context('fork').Pool)
+    real_iso = _isolation_script(multiprocessing.get_context('fork').Pool)
+    import concurrent.futures
+    real_exec = _exec_script(concurrent.futures)
     bad = 0
     n = 0
     for mode in MODES:
@@ -210,10 +271,27 @@ def pool(n_seeds='40'):
                 faults = {'stall': {'p': 25, 'ms': [50], 'steps': [4]}, 'idle_recycle': {'p': 20},
                           'delay': {'p': 25, 'mult': [5, 20]}, 'result_latency': {'ms': [0, 20]},
                           'tiny_inqueue': 1}
+            if seed % 3 == 0:
+                # a replacement worker is forked later and legitimately sees later parent state
+                faults = {k: v for k, v in faults.items() if k != 'idle_recycle'}
             sim = Sim({'mode': mode, 'bg_steps': seed % 4, 'faults': faults,
+                       'workers': 'forked' if seed % 3 == 0 else 'inproc',
                        'pct_changes': [3, 9, 20]}, Tape(seed))
             with Installed(sim):
                 got = _pool_script(multiprocessing.Pool)
+                iso = _isolation_script(multiprocessing.Pool) if seed % 3 == 0 else real_iso
+                got_exec = _exec_script(concurrent.futures)
+            sim.finish_run()
+            if got_exec != real_exec:
+                bad += 1
+                for k in real_exec:
+                    if real_exec[k] != got_exec.get(k):
+                        print('  MISMATCH mode=%s seed=%d executor %s: real=%r sim=%r'
+                              % (mode, seed, k, real_exec[k], got_exec.get(k)), file=sys.stderr)
+            if iso != real_iso:
+                bad += 1
+                print('  MISMATCH mode=%s seed=%d worker isolation: real=%r sim=%r' % (mode, seed, real_iso, iso),
+                      file=sys.stderr)
             n += 1
             if got != real:
                 bad += 1
